@@ -1,5 +1,5 @@
 (* C02 — dependencies (plan level): every dependency is placed in front of its dependent. *)
-From Shred Require Import Base SrcParams Plan PlanObs PlanInv PlanLoc PlanBuild PlanProps PlanLemmas Exec ExecProps ExecPlan BatchProps OracleProps ExecObs TraceOracles ExecOracles.
+From Shred Require Import PlanRec PlanRecProps Base SrcParams Plan PlanObs PlanInv PlanLoc PlanBuild PlanProps PlanLemmas Exec ExecProps ExecPlan BatchProps OracleProps ExecObs TraceOracles ExecOracles.
 
 (* [runs_before b d s]: d sits in an earlier stage than s, or in the same group at a smaller
    index — in both cases d's run has ended before s begins in every execution of the layout
@@ -63,3 +63,11 @@ Example C02_example :
   let rs := [RSys 1 [97] [] [] [] 3%Z; RSys 2 [98] [[97]] [] [] 3%Z; RSys 3 [99] [[98]; [97]; [97]] [] [] 3%Z] in
   exists b, plan rs = Ok b /\ layout_tags b = [[[1]]; [[2]]; [[3]]]%N.
 Proof. eexists. split; vm_compute; reflexivity. Qed.
+
+(* a builder that was used on after caught panics of rejected registrations ([plan_rec], see props/C18.v) keeps
+   the dependency order of the ACCEPTED registrations (a dependency name resolves to the accepted system of that name, never to a rejected one or to the system that got the next id) *)
+Theorem C02_recovered_builder_orders_dependencies :
+  forall rs, regs_times_ok rs -> NoDup (sys_tags rs) ->
+  o_deps_ordered (accepted rs) (layout_tags (plan_rec rs)) = true.
+Proof. exact rec_deps_ordered. Qed.
+Print Assumptions C02_recovered_builder_orders_dependencies.
